@@ -127,6 +127,13 @@ Definition via_callback : list String.string :=
    "opt.algo.SubsetGeneticAlgorithm.SubsetGeneticAlgorithm.minimize"%string;
    "opt.algo.NSGA2SubsetGeneticAlgorithm.NSGA2SubsetGeneticAlgorithm.minimize"%string;
    "opt.algo.NSGA3SubsetGeneticAlgorithm.NSGA3SubsetGeneticAlgorithm.minimize"%string;
+   "opt.algo.NSGA2MemeticSubsetGeneticAlgorithm.NSGA2MutatorASubsetGeneticAlgorithm.minimize"%string;
+   "opt.algo.NSGA2MemeticSubsetGeneticAlgorithm.NSGA2MutatorBSubsetGeneticAlgorithm.minimize"%string;
+   "opt.algo.NSGA2MemeticSubsetGeneticAlgorithm.NSGA2SteepestDescentSubsetGeneticAlgorithm.minimize"%string;
+   "opt.algo.NSGA2MemeticSubsetGeneticAlgorithm.NSGA2StochasticDescentSubsetGeneticAlgorithm.minimize"%string;
+   (* a memetic operator that evaluates the problem object through problem._evaluate (any _evaluate of the package is linked) *)
+   "opt.algo.pymoo_addon.MultiObjectiveStochasticHillClimberMutation.hillclimb"%string;
+   "opt.algo.pymoo_addon.MultiObjectiveStochasticHillClimberMutation._do"%string;
    (* selection protocols: select() solves an arbitrary problem object with an arbitrary optimiser *)
    "breed.prot.sel.BinaryMateSelectionProtocol.BinaryMateSelectionProtocol.select"%string;
    "breed.prot.sel.BinarySelectionProtocol.BinarySelectionProtocol.select"%string;
@@ -249,7 +256,7 @@ Lemma repaired_check : forallb (fun p => sub (direct tbl p) EXPLICIT_OK && negb 
                                           && sub (fget fp_excl p) EXPLICIT_OK) repaired_ids = true.
 Proof. vm_compute. reflexivity. Qed.
 
-Lemma repaired_nonempty : (25 <= length repaired_ids)%nat.
+Lemma repaired_nonempty : (49 <= length repaired_ids)%nat.
 Proof. vm_compute. lia. Qed.
 
 Theorem repaired_sites_explicit : forall nm p, In nm repaired -> id_of nm = Some p ->
